@@ -1,5 +1,5 @@
 """The table behind MANIFEST.json (bin/mkmanifest)."""
-HOOK_COMMITS = ["6d53df4", "d824a97"]
+HOOK_COMMITS = ["6d53df4", "d824a97", "a25974c"]
 
 MC_NOTE = ("Trusted: TLC and its fingerprinting, the Go toolchain, the projection functions of the harness. The exhaustive results hold for the "
            "small constants of the cfg files named in the evidence; beyond them the evidence is the replayed/validated executions only.")
@@ -36,7 +36,7 @@ CHECKS = {
         "text": "Conn.tla is model-checked exhaustively (all interleavings of recv/send/runLoop/watcher/ping/closers for queue capacity 1, few lines) for: at most one DISCONNECTED and "
                 "exactly one REGISTER per generation, Connected() false when DISCONNECTED starts, refused Connect harmless. The same scenario space (cause x coincidence x backlog x "
                 "configuration bits) is run on the real client at the real queue capacity with event counters and Connected() samples taken inside handlers.",
-        "note": MC_NOTE + " Hook-level trace validation against Conn.tla is reported separately when built; until then the binding is scenario replay with observable outputs compared.",
+        "note": MC_NOTE + " Binding: scenario replay with observable outputs compared, plus trace validation of the recorded hook events against ConnTrace.tla (a rejection there is DRIFT unless AtMostOneDisc / OwnClose fail on the recorded events).",
     },
     "C07": {
         "engine": "Conn.tla", "level": "model_checking", "design_ref": "7 (C07), 3.3",
